@@ -174,17 +174,65 @@ def r1(ctx):
     spec = {"Less": False, "Equal": True, "Greater": True}
     ctx.check(bool(preds) and all(p == spec for p in preds), "C02.R1", PUT, "prune-predicate",
               "removed(cmp(new,child)) = %s; spec (removes exactly the not-newer children): %s" % (preds[0] if preds else None, spec), put.sp)
-    # the predicate is consulted by the implementation: its result is returned by the retain callback
+    # the store's prune primitive evaluated (K6'): the predicate is asked about the Record that the row holds (each field
+    # from its own column), its verdict decides the removal unchanged, the number of removed rows is returned
+    from . import feval as E, coll, tables as T
+    types = T.table_types(f)
     rpf = f.body(SI + "remove_prefix_filtered")
-    fam = f.family(rpf.path)
-    ctx.touch(*fam)
-    called = False
-    for b in fam:
-        for bi2, t2 in b.calls():
-            if t2["f"].get("name") in ("call", "call_once", "call_mut") and t2["d"]["l"] == 0:
-                called = True
-    ctx.check(called, "C02.R1", SI + "remove_prefix_filtered", "predicate-decides",
-              "the extract callback returns the predicate's verdict unchanged", rpf.sp)
+    ctx.touch(*f.scope(rpf.path, prefix="store::fs::"))
+    for verdicts in ((1, 0, 1), (0, 0), ()):
+        log = {"asked": [], "table": None, "bounds": None}
+
+        def oracle(kind, name, payload, site, verdicts=verdicts):
+            if kind != "call":
+                return None
+            t, args, it = payload
+            names = [it.tokname(a) for a in args]
+            if callee_matches(t, r"store::fs::Store::modify$"):
+                it.heap.setdefault("tables", E.Tok("tables"))
+                return it.apply(args[1], [E.href("tables")])
+            if callee_matches(t, r"store::fs::bounds::RecordsBounds::author_prefix$"):
+                return E.Tok("author_prefix(%s)" % ",".join(names))
+            if name in ("namespace", "author", "key_bytes", "key") and len(args) == 1:
+                return E.Tok("%s(%s)" % (name, names[0]))
+            if name == "as_ref" and names and names[0].startswith("author_prefix("):
+                return args[0]
+            ct = T.call_table(t, types)
+            if ct and ct[1] in ("extract_from_if", "extract_if", "retain_in", "retain"):
+                log["table"], log["bounds"] = ct[0], names[1] if len(names) > 2 else None
+                removed = []
+                for i, v in enumerate(verdicts):
+                    row_k = ("tuple", [E.Tok("k%d.ns" % i), E.Tok("k%d.author" % i), E.Tok("k%d.key" % i)])
+                    row_v = ("tuple", [E.Tok("v%d.timestamp" % i), E.Tok("v%d.ns_sig" % i), E.Tok("v%d.author_sig" % i), E.Tok("v%d.len" % i), E.Tok("v%d.hash" % i)])
+                    r = it.deref_val(it.apply(args[-1], [row_k, row_v]))
+                    if not E.is_int(r):
+                        raise E.Unsupported("row callback verdict undetermined")
+                    keep_means_true = ct[1].startswith("retain")
+                    if bool(r[1]) != keep_means_true:
+                        removed.append(E.Tok("row%d" % i))
+                if ct[1].startswith("retain"):
+                    log["retain"] = len(removed)
+                    return E.Ok(E.UNIT)
+                return E.Ok(coll.seq("iter", removed))
+            if callee_matches(t, r"sync::Record::new$"):
+                cb = f.body("sync::Record::new")
+                return E.Tok("Record(%s)" % ",".join("%s=%s" % (cb.local_name(i + 1), n) for i, n in enumerate(names)))
+            if name in ("call", "call_mut", "call_once") and names and names[0] == "predicate":
+                i = len(log["asked"])
+                log["asked"].append(names[1][1:-1] if names[1].startswith("(") and names[1].endswith(")") else names[1])
+                return E.Int(verdicts[i] if i < len(verdicts) else 0)
+            if name in ("into", "from") and len(args) == 1:
+                return args[0]
+            return coll.Collections(f).handle(kind, name, payload, site)
+        try:
+            ret, it_ = E.run_it(f, rpf.path, [E.href("self"), E.href("id"), E.Tok("predicate")], {"self": E.Tok("self"), "id": E.Tok("id")}, oracle)
+            got = E.describe(it_.resolve(ret), f)
+        except E.Unsupported as ex:
+            got = "UNSUPPORTED-FORM: %s" % ex
+        want_asked = ["Record(hash=v%d.hash,len=v%d.len,timestamp=v%d.timestamp)" % (i, i, i) for i in range(len(verdicts))]
+        ok = got == "Ok(%d)" % sum(verdicts) and log["asked"] == want_asked and log["table"] == "records" and (log["bounds"] or "").startswith("author_prefix(namespace(id),author(id),key")
+        ctx.check(ok, "C02.R1", rpf.path, "predicate-decides[%s]" % ("".join(str(v) for v in verdicts) or "no-rows"),
+                  "returns %s; the predicate was asked about %s on table %s within %s; spec: each row's own (hash, len, timestamp), the verdict decides, the count of removed rows is returned: Ok(%d)" % (got, log["asked"], log["table"], log["bounds"], sum(verdicts)), rpf.sp)
 
     # Record order: (timestamp, hash) lexicographic - Ord::cmp evaluated on the 3x3 orders of the two fields
     from . import feval as E
